@@ -361,9 +361,12 @@ class WsHarness(object):
                     await ws.close(op[1], op[2])
                 else:
                     await ws.close(op[1])
-            finally:
-                # a close attempt that passed validation marks the app side closed
-                pass
+            except ferrors.WebSocketDisconnected:
+                # the close event could not be sent (connection lost): the background reader
+                # must be stopped all the same
+                self.app_closed = True
+                self.close_check()
+                raise
             self.app_closed = True
             self.close_check()
         elif kind == 'raise':
